@@ -50,7 +50,7 @@ def decodeDct (dct : Dct) : DecM IVal := do
     let s ← getS
     match lookup key s.lengthKeys with
     | none => do odxraise .odx; raise .unmodelled
-    | some bl => if bl < 0 then raise .foreign else extractAtomic bl.toNat bt enc hl
+    | some bl => if bl < 0 then do odxraise .decode; extractAtomic 0 bt enc hl else extractAtomic bl.toNat bt enc hl
 
 mutual
 def decodeDop : (fuel : Nat) → Dop → DecM PVal
@@ -238,7 +238,9 @@ def constPrefix (ps : List Param) (trig : Bytes) (strict : Bool) : Except Err By
         | _ => false
       if take then do encodeParam modelFuel p none; go fuel rest else pure ()
   match go modelFuel ps { trig := some trig } strict with
-  | .ok (_, s) => .ok s.msg
+  | .ok (_, s) =>
+    -- only the leading bytes that are completely determined by the constants
+    .ok ((s.msg.zip s.used).takeWhile (fun p => p.2 == 255) |>.map (·.1))
   | .error (e, _) => .error e
 
 end OdxVerif.Codec
